@@ -8,10 +8,16 @@ package c07
 
 import (
 	"fmt"
+	"math"
+	"net/http"
 	"strings"
+	"sync"
 	"testing"
 	"time"
 
+	"github.com/wi1dcard/fingerproxy/pkg/fingerprint"
+	"github.com/wi1dcard/fingerproxy/pkg/metadata"
+	"github.com/wi1dcard/fingerproxy/pkg/reverseproxy"
 	xhttp2 "golang.org/x/net/http2"
 	"pgregory.net/rapid"
 
@@ -55,6 +61,42 @@ func gen(t *rapid.T) Script {
 	return s
 }
 
+// spinInjector recomputes the HTTP/2 fingerprint many times while the request is being handled and
+// collects every distinct value: each of them must be the fingerprint of the frame history at some
+// instant. It shares nothing with the frame writer; the mutex only orders handlers among themselves.
+type spinInjector struct {
+	mu   sync.Mutex
+	seen map[string]bool
+	n    int
+}
+
+func (s *spinInjector) GetHeaderName() string { return "X-Verif-Spin" }
+func (s *spinInjector) GetHeaderValue(r *http.Request) (string, error) {
+	md, ok := metadata.FromContext(r.Context())
+	if !ok {
+		return "", nil
+	}
+	p := &fingerprint.HTTP2FingerprintParam{MaxPriorityFrames: math.MaxUint}
+	local := map[string]bool{}
+	for i := 0; i < s.n; i++ {
+		v, _ := p.HTTP2Fingerprint(md)
+		local[v] = true
+	}
+	s.mu.Lock()
+	for v := range local {
+		s.seen[v] = true
+	}
+	s.mu.Unlock()
+	return "", nil
+}
+
+var pseudoOrders = [][]string{
+	{":method", ":scheme", ":authority", ":path"},
+	{":method", ":path", ":authority", ":scheme"},
+	{":path", ":method", ":scheme", ":authority"},
+	{":authority", ":scheme", ":path", ":method"},
+}
+
 func exec(t *testing.T, s Script) *vstat.Violation {
 	type reqInfo struct {
 		from int // index in sent of the request's own HEADERS
@@ -65,8 +107,10 @@ func exec(t *testing.T, s Script) *vstat.Violation {
 	var reqs []*rig.Recorded
 	var failure string
 	inFlightWhileWriting := false
+	spin := &spinInjector{seen: map[string]bool{}, n: 30}
 	msg := rig.Bubble(t, func() {
-		p := rig.StartProxy(rig.ProxyOpts{IdleTimeout: 10 * time.Minute, TLSHandshakeTimeout: 10 * time.Second})
+		p := rig.StartProxy(rig.ProxyOpts{IdleTimeout: 10 * time.Minute, TLSHandshakeTimeout: 10 * time.Second,
+			Injectors: append([]reverseproxy.HeaderInjector{spin}, rig.DefaultInjectors(^uint(0))...)})
 		raw, _, err := p.Ln.Dial(rig.DialOpts{})
 		if err != nil {
 			failure = err.Error()
@@ -123,14 +167,22 @@ func exec(t *testing.T, s Script) *vstat.Violation {
 					pth := fmt.Sprintf("/s/%d", sid)
 					path[sid] = pth
 					var pr *rig.Prio
-					f := h2fp.Frame{Kind: "headers", Stream: sid, Names: []string{":method", ":scheme", ":authority", ":path"}}
+					// the pseudo-header order changes from request to request, so that a half-recorded HEADERS
+					// frame (new header block, old priority list) is no fingerprint of any instant
+					order := pseudoOrders[int(sid/2)%len(pseudoOrders)]
+					f := h2fp.Frame{Kind: "headers", Stream: sid, Names: order}
 					if op.Prio {
 						pr = &rig.Prio{Dep: 0, Weight: uint8(sid % 200)}
 						f.HasPrio, f.Weight = true, uint8(sid%200)
 					}
 					sent = append(sent, f)
 					info[pth] = &reqInfo{from: len(sent) - 1}
-					if err := peer.WriteRequestHeaders(sid, [][2]string{{":method", "GET"}, {":scheme", "https"}, {":authority", "example.com"}, {":path", pth}}, true, pr, nil); err != nil {
+					vals := map[string]string{":method": "GET", ":scheme": "https", ":authority": "example.com", ":path": pth}
+					var fields [][2]string
+					for _, n := range order {
+						fields = append(fields, [2]string{n, vals[n]})
+					}
+					if err := peer.WriteRequestHeaders(sid, fields, true, pr, nil); err != nil {
 						failure = "write: " + err.Error()
 						return
 					}
@@ -174,6 +226,16 @@ func exec(t *testing.T, s Script) *vstat.Violation {
 		}
 		if !ok {
 			return vstat.Violf("concurrent-streams|fingerprint-matches-no-instant", "request %s: X-HTTP2-Fingerprint %q equals the fingerprint of no frame-history prefix between its own HEADERS (frame %d) and frame %d; e.g. %q", r.RequestURI, got, ri.from, to, cands)
+		}
+	}
+	// every value any handler computed while it ran is the fingerprint of some instant of the history
+	all := map[string]bool{}
+	for j := 1; j <= len(sent); j++ {
+		all[h2fp.Fingerprint(sent[:j], -1)] = true
+	}
+	for v := range spin.seen {
+		if !all[v] {
+			return vstat.Violf("concurrent-streams|torn-fingerprint-observed-by-a-handler", "a handler computed %q, which is the fingerprint of no prefix of the %d frames the client sent (e.g. final state %q)", v, len(sent), h2fp.Fingerprint(sent, -1))
 		}
 	}
 	cl := []string{}
